@@ -17,3 +17,7 @@ claim("C03",
 claim("C12",
       "Decides structural clauses only: strict and legacy envelope header layouts of both writers and both readers equal the frozen Thrift rows and share the version constant/mask; DecodeRequest and ReadRequest have identical (framing test => responder) arms equal to the frozen three-way classification, check the envelope type before succeeding and build responders whose Name/SeqID come from the decoded envelope; every responder re-wraps with its own framing echoing Name/SeqID; the envelope server mirrors name/seqid; no raw io.Reader.Read in protocol/binary (segmentation independence); borrowed stream readers/writers are released on all exits. Does NOT decide round-trip equality of names/bodies or multiplexing.",
       TRUST, "symbolic success-path traces over SSA compared between sibling functions and with a frozen table; who-may-call rule with witness; pairing on all exits", "DESIGN.md section 4 C12")
+
+claim("C13",
+      "Decides one structural clause: no allocation is sized by a length or count taken from the wire unless a comparison of that length against a compile-time constant (or a constant-like package variable) dominates the allocating branch — interprocedural field-based taint over the decode scope (stream reader, envelope readers, frame reader), plus: lazy containers are built from a wire count only after the skip pass over that many items succeeded; the same rule on the generator's container Decoder/Reader templates when the template model is active. Does NOT decide that work is linear in N nor the numeric factor.",
+      TRUST, "interprocedural taint (SSA) from wire lengths to allocation sizes with dominating constant-bound sanitizers", "DESIGN.md section 4 C13")
